@@ -105,12 +105,16 @@ def _filter(geom, kind):
     if kind is None:
         return None, None
     n = geom.n
-    keep = C.coded_mask(n, 3 if kind == "same" else 5)
+    keep = C.coded_mask(n, 3 if kind in ("same", "tiny") else 5)
     if keep.all() or not keep.any():
         keep = keep.copy()
         keep.flat[-1] = not keep.flat[-1]
     k = np.arange(keep.size).reshape(n)
     vals = np.where(keep, (1.0 + k) * (-1.0) ** k, 0.0)  # non-zero values of both signs where kept
+    if kind == "tiny":
+        # non-zero but tiny filter values (a norm of 2.5e-10, a difference of 1e-15 ...): NOT zero, so the cell is drawn
+        tiny = np.array([2.5e-10, -7e-12, 1e-15, -1e-300])[k % 4]
+        return df.Field(geom.mesh, nvdim=1, value=np.where(keep, tiny, 0.0)[..., None]), ~keep
     if kind == "same":
         return df.Field(geom.mesh, nvdim=1, value=vals[..., None]), ~keep
     return df.Field(geom.other_mesh(), nvdim=1, value=_block(vals)[..., None]), ~keep
@@ -426,7 +430,7 @@ def unit_scalar(ctx):
     gname = ctx.choose("geom", GEOM_QUICK if quick else list(GEOMS))
     vkind = ctx.choose("valid", ["all", "coded"])
     mult = ctx.choose("multiplier", MULTS[:4] if quick else MULTS)
-    fkind = ctx.choose("filter", [None, "same", "other"])
+    fkind = ctx.choose("filter", [None, "same", "other", "tiny"])
     kind = ctx.choose("kind", ["scalar", "contour"])
     geom = Geom(gname)
     if kind == "contour" and min(geom.n) < 2:
@@ -594,7 +598,7 @@ def unit_lightness(ctx):
                                                                                                       "v3-from-sel"])
     layout = ctx.choose("layout", layouts)
     vkind = ctx.choose("valid", ["coded", "all"])
-    fkind = ctx.choose("filter", [None, "same", "other"])
+    fkind = ctx.choose("filter", [None, "same", "other", "tiny"])
     lsrc = ctx.choose("lightness", ["default", "field-same", "field-other", "self"] if layout == "s" else
                       ["default", "field-same", "field-other"])
     mult = ctx.choose("multiplier", [None, 1e-6] if quick else [None, 1e-6, 1, 1e3])
